@@ -38,7 +38,8 @@ Definition hook_precedes_writes (acts : list ract) : bool :=
   end.
 
 (* the receiver is cancelled (session torn down) while it handles a PDU it has read: inside the handler (the correlator's awaits: sweeps
-   that call the application's send_error hook) or inside the received hook.  A response is handled to its end (receiver_finishes_read_pdu,
+   that call the application's send_error hook) or inside the received hook.  A response is handled to its end - as long as the
+   application's hooks return within socket_timeout, after which the handling is cancelled - (receiver_finishes_read_pdu,
    read off _receive_data: the handling runs shielded and is awaited before the cancellation is passed on; nothing in it waits for the
    session); the handling of a request is interrupted, and the raw PDU is handed to the hook (request_handling_cancel_guard, read off
    _handle_pdu). *)
